@@ -727,7 +727,16 @@ def run_C12(tier, rng, stats):
                 a = case(ev, 'eval', None, c % (A + R))
                 b = case(ev, 'eval', None, c % ('(' + A + '*(' + R + '))'))
                 pairs.append((a, b, 'implicit product vs (A*(R))'))
-        # forbidden juxtapositions must be rejected (compared with the model; listed here for the histogram)
+        # chains of three and more factors and bracketed products as the right factor, over operands whose products are
+        # inexact or overflow (so that a re-association of the implicit product changes the bits)
+        if ev != 'i64':
+            inex = ['.1', '0.1', '0.3', '0.7', '3', '1.1', '100000000000000000000' if ev == 'decimal' else '1' + '0' * 308]
+            rs = ['(.2)(.3)', '(0.2*0.3)', '(.1*.7)', '(0.3)(0.7)(0.9)', '(10)(.1)', '(0.7)(1.1)^2', 'abs(0.3)(0.7)', '(0.7*1.1*0.3)']
+            for A in inex:
+                for R in rs:
+                    for c in ['%s', '1+%s', '2*%s', '(%s)/3']:
+                        pairs.append((case(ev, 'eval', None, c % (A + R)), case(ev, 'eval', None, c % ('(' + A + '*(' + R + '))')), 'implicit product chain vs (A*(R))'))
+                        pairs.append((case(ev, 'ast', None, c % (A + R)), case(ev, 'ast', None, c % ('(' + A + '*(' + R + '))')), 'implicit product chain vs (A*(R)) (tree)'))
     rej = []
     for ev in EVS:
         for left in ['@', 'pi', 'e', '2²', '2°', '2rad', 'π']:
@@ -1283,6 +1292,16 @@ def run_C16(tier, rng, stats):
             for a, b in twins[ev]:
                 pos = rng.below(len(hist) + 1)
                 hist[pos:pos] = [case(ev, 'eval', a, e), case(ev, 'eval', b, e), case(ev, 'eval', a, ' ' + e)]
+    # deeply nested expressions (60 levels) evaluated concurrently: a process-wide counter / buffer shared by the calls in
+    # flight (a depth guard, a scratch stack) shows only when many deep parses overlap
+    for ev in EVS:
+        for t in ['(%s)', '-%s', 'abs(%s)', '2*(%s)', '2(%s)']:
+            e = '@+1'
+            for _ in range(60):
+                e = t % e
+            for k in range(24):
+                pos = rng.below(len(hist) + 1)
+                hist.insert(pos, case(ev, 'eval', gen.ph_pool(ev)[k % 5], e))
     lines = ['\t'.join(c) for c in hist]
     import subprocess
     res = empty()
@@ -1542,7 +1561,15 @@ def run_C10(tier, rng, stats):
     stats.setdefault('exploration', {})['max_relative_error_by_function'] = {k: float('%.3g' % v) for k, v in sorted(worst.items())}
     stats['rule'] = ('every (evaluator, function name / alias / constant / postfix operator) of the vocabulary x arguments sampled over the domain (edges, large and negative arguments, random), '
                      'compared with the model (bit exact) and with an independent numeric reference (Python math, own Lambert W, Gamma): exact for abs sgn floor ceil trunc round n!, 1e-9 relative otherwise, '
-                     'within 1 for the integer-valued real functions of eval_i64')
+                     'within 1 for the integer-valued real functions of eval_i64; eval_complex: the function stream of C08 (every function on generic, mixed-class and extreme-magnitude operands)')
+    # eval_complex offers the same names: its function stream (model bit-exact + cmath reference) is part of this check too
+    sub = {}
+    r8 = run_C08(tier, rng, sub)
+    rule = stats['rule']
+    merge(res, {'levels': {'complex: ' + k: v for k, v in r8['levels'].items()}, 'disagreements': r8['disagreements'], 'violations': r8['violations']})
+    stats['evaluations'] = stats.get('evaluations', 0) + sub.get('evaluations', 0)
+    stats['distinct_nontrivial'] = stats.get('distinct_nontrivial', 0) + sub.get('distinct_nontrivial', 0)
+    stats['rule'] = rule
     return res
 
 PROPS['C10'] = {}
@@ -1711,6 +1738,14 @@ def run_C08(tier, rng, stats):
                 c = case('complex', 'eval', cw(z), f + '(@,' + lit(w) + ')'); cs.append(c); meta[c] = ('c2', f, (z, w))
                 c = case('complex', 'eval', cw(w), f + '(' + lit(z) + ',@)'); cs.append(c); meta[c] = ('c2', f, (z, w))
                 c = case('complex', 'eval', None, f + '(' + lit(z) + ',' + lit(w) + ')'); cs.append(c); meta[c] = ('c2', f, (z, w))
+    # extreme magnitudes: squares overflow / underflow although the modulus is representable (compared with the model; the
+    # cmath reference is used where it does not overflow)
+    for z in [complex(3e200, 4e200), complex(-1e160, 0.0), complex(0.0, 1e155), complex(3e-200, 4e-200), complex(0.0, -1e-160), complex(1e-180, 1e-180),
+              complex(1e308, 1e308), complex(5e-324, 5e-324), complex(1e154, 1e154), complex(-2e153, 1e10)]:
+        for f in ['abs', 'sqrt', 'ln', 'exp', 'sin', 'atan']:
+            c = case('complex', 'eval', cw(z), f + '(@)'); cs.append(c); meta[c] = ('c1' if f == 'abs' else 'model-only', f, (z,))
+        for e in ['@/@', '@*1', '1/@', '@/3', 'abs(@)/abs(@)', 'abs(2*@)']:
+            c = case('complex', 'eval', cw(z), e); cs.append(c); meta[c] = ('model-only', e, (z,))
     # lexing of i
     for e, want in [('i', 1j), ('2i', 2j), ('i*i', -1 + 0j), ('i²', None), ('1.5i+2', 2 + 1.5j), ('2ii', -2 + 0j), ('pi', complex(math.pi, 0)), ('.5i', 0.5j)]:
         c = case('complex', 'eval', None, e); cs.append(c); meta[c] = ('lit', e, (want,))
